@@ -178,6 +178,14 @@ class C12(Prop):
         n = 100000 if tier == "thorough" else 1200
         for _ in range(n):
             add(rand_tree(rng, rng.choice([2, 3, 4, 5])), "random")
+        # postfix ++ / --: redundant parentheses around the variable (known finding D43: the operator takes the token before it)
+        for v in ("x", "a"):
+            for op in ("++", "--"):
+                gid += 1
+                for src in ("%s = 1; %s%s;" % (v, v, op), "%s = 1; (%s)%s;" % (v, v, op), "%s = 1; ((%s))%s;" % (v, v, op)):
+                    c = Case("parse", {"script": vlib.hx(src)}, "postfix-parens", expect={"parse": "ok"}, group="T%d" % gid, note=src)
+                    c.tags.add("parenthesised-postfix-operand")
+                    out.append(c)
         # nested ternaries are rejected, in either arm, also inside parentheses
         for src in ["a ? b ? 1 : 2 : 3;", "a ? 1 : b ? 2 : 3;", "a ? (b ? 1 : 2) : 3;", "a ? 1 : (b ? 2 : 3);", "x = a ? f(b ? 1 : 2) : 3;",
                     "a ? [b ? 1 : 2] : 3;"]:
@@ -194,5 +202,8 @@ class C12(Prop):
             if len(asts) > 1:
                 out.append((cs[0], "the same expression with minimal / redundant / full parentheses parses to different trees"))
         return out
+
+    def in_class(self, klass, case):
+        return klass == "parenthesised-postfix-operand" and "parenthesised-postfix-operand" in case.tags
 
 PROP = C12()
